@@ -12,8 +12,8 @@ package checks
 import (
 	"fmt"
 	"os"
-	"strconv"
 	"sort"
+	"strconv"
 	"strings"
 	"time"
 
